@@ -695,7 +695,8 @@ class C01(HistoryCheck):
         k = dict(ALL_KNOBS)
         k.update(cycle=rng.choice([0.0, 0.5, 1.0]), imp=rng.choice([0.0, 0.3]), quad=rng.choice([0.0, 0.4]),
                  scaling=rng.choice([0.0, 0.0, 0.4]), neg_scaling=True, res_ref=True,
-                 mf=rng.choice([0.0, 0.0, 0.2]), nl=['nlbgs', 'newton', 'nlbj', 'broyden'], voi_units=0.3)
+                 mf=rng.choice([0.0, 0.0, 0.2]), nl=['nlbgs', 'newton', 'nlbj', 'broyden'], voi_units=0.3,
+                 sparse_decl=0.3, two_outs=0.4)
         return k
 
     def run_knobs(self, rng, world):
@@ -822,7 +823,8 @@ class C24(HistoryCheck):
         k.update(ncomp=(4, 8), auto_ivc=0.45, cycle=rng.choice([0.0, 0.5, 1.0]), imp=rng.choice([0.0, 0.3]),
                  quad=rng.choice([0.0, 0.3]), scaling=rng.choice([0.0, 0.3]), res_ref=True,
                  root_ln=['direct', 'direct_csc', 'runonce', 'lnbgs', 'lnbgs', 'lnbj', 'krylov'],
-                 ln=['direct', 'direct_csc', 'lnbgs', 'lnbgs', 'lnbj', 'krylov'], voi_units=0.2)
+                 ln=['direct', 'direct_csc', 'lnbgs', 'lnbgs', 'lnbj', 'krylov'], voi_units=0.2, sparse_decl=0.4,
+                 two_outs=0.4)
         return k
 
     def run_knobs(self, rng, world):
